@@ -66,7 +66,9 @@ def sched_cases(tier, seed):
     stride = 5 if tier == "quick" else 1
     bases = [{"T0": [["call", "top", 1]], "T1": [["call", "mid", 1]]},
              {"T0": [["call", "catcher", 1]], "T1": [["call", "part", 1]]},
-             {"T0": [["call", "top", 0]], "T1": [["batch", "leaf", [1, 0, 1]]]}]
+             {"T0": [["call", "top", 0]], "T1": [["batch", "leaf", [1, 0, 1]]]},
+             # resource handles obtained by two threads (the wrapper of a resource function is one object for all threads)
+             {"T0": [["call", "rs", 1], ["call", "rtop", 2]], "T1": [["call", "rtop", 1], ["call", "rs", 0]]}]
     for bi, threads in enumerate(bases):
         for first in (0, 1):
             for at in range(1, 4000 if tier == "thorough" else 2400, stride):
